@@ -5,7 +5,9 @@
                                   (put / range / all / take / drop), whose steps are all placed by TLC
      Start(s, k, v)               a harness stage is about to call Put (k = "putv") / WriteString (k = "putb")
      End(s, k, v, r)              the operation of stage s returned:
-                                    putv|putb: r = "ok" | "gone" (ReaderGone; the stage command returns it)
+                                    putv|putb: r = "ok" | "gone" (ReaderGone; the stage command returns it);
+                                               g = the port's readerGone flag read right after a failed
+                                               WriteString ("t" | "f"; "u" when it cannot be observed)
                                     getv|getb: r = "ok" (value/line v) | "closed"
                                     item     : IterateInputs called the callback with v (r = band "v"|"b")
                                     drainend : IterateInputs returned
@@ -19,9 +21,10 @@
    by a successful write) floats.  Every real behaviour remains accepted: these steps only set flags that
    nothing observes to be unset.
    Second reduction: operations whose outcome does not depend on WHEN they happen once they are possible
-   (receives, reads, IterateInputs' goroutines and callback, DrDone, Finish: only this stage consumes its
-   input, and a closed/ended band stays so) are placed as early as possible (Eager); only the effects of
-   Put / WriteString, whose outcome (sent | reader gone) depends on the moment, and rclose float.  Taking a
+   (receives, reads, IterateInputs' reader goroutines, DrDone, Finish: only this stage consumes its input,
+   and a closed/ended band stays so) are placed as early as possible (Eager); the effects of Put /
+   WriteString, whose outcome (sent | reader gone) depends on the moment, the callback of IterateInputs
+   (which band is delivered next depends on what has arrived by then) and rclose float.  Taking a
    value earlier only frees buffer space earlier, which enables nothing that a later Put could not do anyway.
    Cap is the measured capacity of the real channel (cap(fm.Port(1).Chan)); PCap is unbounded here (the
    OS pipe size is not part of the property). *)
@@ -50,12 +53,14 @@ EvStart == /\ Is("Start") /\ T.s \in Stages
                 /\ fl' = [fl EXCEPT ![s] = "started"]
            /\ l' = l + 1 /\ UNCHANGED <<pend, sel, sg, lk, gh, result>>
 PutLike(s) == PutSend(s) \/ PutStopped(s) \/ WriteB(s) \/ WriteEPIPE(s)
-NonPut(s) == GetV(s) \/ GetVClosed(s) \/ ReadB(s) \/ ReadEOF(s) \/ DrDeliverV(s) \/ DrDeliverB(s) \/ DrDone(s) \/ Finish(s)
+NonPut(s) == GetV(s) \/ GetVClosed(s) \/ ReadB(s) \/ ReadEOF(s) \/ DrDone(s) \/ Finish(s)
+DeliverCb(s) == DrDeliverV(s) \/ DrDeliverB(s)
 InputSide(s) == DrTakeV(s) \/ DrTakeB(s) \/ DrEndV(s) \/ DrEndB(s)
 FwdPut(s) == FwdSend(s) \/ FwdStopped(s)
-Effect == \E s \in Stages :          \* floating: the effect of a started Put / WriteString
-            /\ Logged(s) /\ sg[s].st = "run" /\ fl[s] = "started"
-            /\ PutLike(s)
+Effect == \E s \in Stages :          \* floating: the effect of a started Put / WriteString, the callback of IterateInputs
+            /\ Logged(s) /\ sg[s].st = "run"
+            /\ \/ fl[s] = "started" /\ PutLike(s)
+               \/ fl[s] = "idle" /\ DeliverCb(s)
             /\ fl' = [fl EXCEPT ![s] = "eff"]
             /\ UNCHANGED <<l, pend>>
 EagerEffect == \E s \in Stages :
@@ -66,6 +71,7 @@ EagerEffect == \E s \in Stages :
 EvEnd == /\ Is("End") /\ T.s \in Stages
          /\ LET s == T.s IN
               /\ Logged(s) /\ fl[s] = "eff" /\ sg[s].last = [k |-> T.k, v |-> T.v, r |-> T.r]
+              /\ (T.k = "putb" /\ T.r = "gone" /\ T.g # "u") => ((T.g = "t") = lk[s].readerGone)
               /\ fl' = [fl EXCEPT ![s] = IF sg[s].st = "run" THEN "idle" ELSE "ended"]
          /\ l' = l + 1 /\ UNCHANGED <<pend, sel, sg, lk, gh, result>>
 \* IterateInputs' reader goroutines run once the stage has entered the operation (its previous End is logged)
@@ -73,7 +79,7 @@ Readers == \E s \in Stages :
              /\ Logged(s) /\ (fl[s] = "idle" \/ (fl[s] = "eff" /\ sg[s].last.k = "item"))
              /\ InputSide(s)
              /\ UNCHANGED <<l, fl, pend>>
-Unlogged == \E s \in Stages : ~Logged(s) /\ (PutLike(s) \/ FwdPut(s)) /\ UNCHANGED <<l, fl, pend>>
+Unlogged == \E s \in Stages : ~Logged(s) /\ (PutLike(s) \/ FwdPut(s) \/ DeliverCb(s)) /\ UNCHANGED <<l, fl, pend>>
 EagerUnlogged == \E s \in Stages : ~Logged(s) /\ (NonPut(s) \/ InputSide(s)) /\ UNCHANGED <<l, fl, pend>>
 Eager == EagerEffect \/ Readers \/ EagerUnlogged
 MayExit(s) == sg[s].st \notin {"run", "done"} /\ (Logged(s) => fl[s] = "ended")
